@@ -446,23 +446,21 @@ class ApplyBatchImpl:
         assert self.new_table is not None
         op_impl.create_table(self.new_table)
 
+        # generated (computed) columns of the new table cannot be inserted
+        # into; their values are recomputed from the copied columns
+        copied = [
+            (k, transfer["expr"])
+            for k, transfer in self.column_transfers.items()
+            if "expr" in transfer and self.new_table.c[k].computed is None
+        ]
+
         try:
             op_impl._exec(
                 self.new_table.insert()
                 .inline()
                 .from_select(
-                    list(
-                        k
-                        for k, transfer in self.column_transfers.items()
-                        if "expr" in transfer
-                    ),
-                    select(
-                        *[
-                            transfer["expr"]
-                            for transfer in self.column_transfers.values()
-                            if "expr" in transfer
-                        ]
-                    ),
+                    [k for k, _ in copied],
+                    select(*[expr for _, expr in copied]),
                 )
             )
             op_impl.drop_table(self.table)
